@@ -23,7 +23,8 @@ type c11Ref struct {
 	Target   int    `json:"target"` // file index, -1: intentionally missing
 	IfExists bool   `json:"if_exists,omitempty"`
 	With     string `json:"with,omitempty"`
-	With2    string `json:"with2,omitempty"` // a second pair (wv2)
+	With2    string `json:"with2,omitempty"`   // a second pair (wv2)
+	WithSv   string `json:"with_sv,omitempty"` // a pair named like the includer's own private variable sv
 	Only     bool   `json:"only,omitempty"`
 	Dead     bool   `json:"never_executed,omitempty"` // lazy include under a false condition
 }
@@ -41,6 +42,7 @@ type c11Spec struct {
 	Kind    string    `json:"loader_kind"`
 	NDisks  int       `json:"disks"`
 	BaseDir string    `json:"basedir,omitempty"`
+	OwnMiss bool      `json:"loader_reports_misses_with_its_own_error_type,omitempty"`
 	Files   []c11File `json:"files"`
 	Entry   string    `json:"entry"` // FromFile, FromCache, FromString
 	TopName string    `json:"top_name"`
@@ -215,6 +217,9 @@ func c11Gen(tp *Tapes) *c11Spec {
 	if sp.Kind == "httpbase" {
 		sp.BaseDir = []string{"tplroot", "/tplroot"}[g.Draw(2)]
 	}
+	if sp.Kind == "virt" || sp.Kind == "virtrel" {
+		sp.OwnMiss = g.Draw(2) == 1
+	}
 	n := 3 + g.Draw(6)
 	kindsOf := make([]string, n)
 	kindsOf[0] = "plain"
@@ -266,6 +271,10 @@ func c11Finish(tp *Tapes, sp *c11Spec) {
 	g := tp.Gen
 	n := len(sp.Files)
 	usedBase := map[int]bool{}
+	existing := map[string]bool{}
+	for _, of := range sp.Files {
+		existing[normPath(of.Path)] = true
+	}
 	for i := 0; i < n; i++ {
 		f := &sp.Files[i]
 		if f.Kind == "raw" {
@@ -320,6 +329,19 @@ func c11Finish(tp *Tapes, sp *c11Spec) {
 				}
 				ref.IfExists = true
 				ref.Name, _ = c11WriteName(g, sp, self, c11TargetPath(sp, "c/nope.tpl"), lazyRootedOnly)
+				if c11Relative(sp.Kind) && ref.Type == "inc" && g.Draw(2) == 0 {
+					// a decoy: the bare file name of a template that exists in ANOTHER directory;
+					// relative to this file it names nothing
+					for _, of := range sp.Files {
+						if path.Dir(of.Path) != path.Dir(f.Path) && of.Kind == "plain" {
+							cand := path.Base(of.Path)
+							if _, clash := existing[normPath(path.Join(path.Dir(f.Path), cand))]; !clash {
+								ref.Name = cand
+								break
+							}
+						}
+					}
+				}
 				if i == 0 && f.Kind == "plain" && g.Draw(5) == 0 {
 					ref.IfExists = false // a missing name without if_exists: the operation must fail
 				}
@@ -354,6 +376,9 @@ func c11Finish(tp *Tapes, sp *c11Spec) {
 				}
 				if ref.With != "" && g.Draw(2) == 1 {
 					ref.With2 = fmt.Sprintf("V%d_%d", i, r)
+				}
+				if ref.With != "" && g.Draw(3) == 0 {
+					ref.WithSv = fmt.Sprintf("P%d_%d", i, r) // the pair must win over the includer's own sv
 				}
 				if ref.Type == "lazy" && g.Draw(6) == 0 {
 					ref.Dead = true
@@ -393,6 +418,9 @@ func c11RefText(ref c11Ref, k int) string {
 		tail += fmt.Sprintf(` with wv="%s"`, ref.With)
 		if ref.With2 != "" {
 			tail += fmt.Sprintf(` wv2="%s"`, ref.With2)
+		}
+		if ref.WithSv != "" {
+			tail += fmt.Sprintf(` sv="%s"`, ref.WithSv)
 		}
 		if ref.Only {
 			tail += " only"
@@ -633,6 +661,9 @@ func (r *c11Ref2) execRefs(n *c11Node, f c11File, execName string, env c11Env, b
 		if ref.With2 != "" {
 			sub.wv2 = ref.With2
 		}
+		if ref.WithSv != "" {
+			sub.sv = ref.WithSv
+		}
 		switch ref.Type {
 		case "inc":
 			kid := n.kids[k]
@@ -772,7 +803,7 @@ func (c11Checker) Run(tp *Tapes, opt RunOpt) *Outcome {
 		defer SetCurWorld(old)
 		var loaders []pongo2.TemplateLoader
 		for d := 0; d < sp.NDisks; d++ {
-			ls := LoaderSpec{Kind: sp.Kind, Disk: d, BaseDir: sp.BaseDir}
+			ls := LoaderSpec{Kind: sp.Kind, Disk: d, BaseDir: sp.BaseDir, OwnMiss: sp.OwnMiss}
 			if sp.Kind == "localbase" {
 				ls.BaseDir = sp.Root
 			}
